@@ -129,3 +129,39 @@ def set_size(m, meta):
             if img._size != before:
                 out.append(("size changed by rejected call", bad))
     return {"reproduced": bool(out), "input": (w, h), "observed": out}
+
+
+def renderer(m, meta):
+    """_renderer(): the image's size setting (fixed or dynamic) is what it was on every exit - normal return, an error in the
+    renderer, a size rejected by validation"""
+    import tests  # noqa: F401
+    from PIL import Image
+    from term_image.exceptions import InvalidSizeError
+    from term_image.image import BlockImage, Size
+    problems = []
+
+    class Boom(Exception):
+        pass
+    for setting in (Size.FIT, Size.AUTO, Size.ORIGINAL, Size.FIT_TO_WIDTH, "fixed"):
+        for outcome in ("return", "raise", "KeyboardInterrupt"):
+            for kw in ({}, {"check_size": True}, {"animated": True}, {"scroll": True, "check_size": True}):
+                image = BlockImage(Image.new("RGB", (300, 900)))
+                if setting == "fixed":
+                    image.set_size(width=10)
+                else:
+                    image.size = setting
+                before = image.size
+
+                def render(img, outcome=outcome):
+                    if outcome == "raise":
+                        raise Boom()
+                    if outcome == "KeyboardInterrupt":
+                        raise KeyboardInterrupt()
+                    return "ok"
+                try:
+                    image._renderer(render, **kw)
+                except (Boom, KeyboardInterrupt, InvalidSizeError):
+                    pass
+                if image.size != before:
+                    problems.append({"size setting": repr(before), "renderer outcome": outcome, "arguments": kw, "size setting afterwards": repr(image.size)})
+    return {"reproduced": bool(problems), "input": "every size setting x renderer outcome x validation mode", "observed": problems[:3]}
